@@ -293,6 +293,12 @@ class View:
         return [m for m in self.members.get(b, []) if self.spawn_pos[m] < pos and not self.ended_before(m, pos)]
 
 
+def _cancel_evidence(e) -> bool:
+    """the event shows a CancelledError delivered to its task"""
+    return ((e[1] == "resume" and e[3] == "cancelled") or (e[1] in ("dened", "dexed") and e[3] == "Cancelled")
+            or (e[1] == "left" and e[3] == "Cancelled") or (e[1] == "caught" and e[2] == "Cancelled"))
+
+
 def members_not_cancelled(v: View, b: int, pos: int, abort_later: bool = False) -> list[int]:
     """Members of b's group, pending at event index pos (the moment the group aborts), that are demonstrably *awaited
     instead of cancelled*: blocked on a gate, never cancelled before, and resumed normally afterwards; or not started
@@ -305,9 +311,15 @@ def members_not_cancelled(v: View, b: int, pos: int, abort_later: bool = False) 
             continue
         if not v.started_before(m, pos):
             if abort_later:
-                res = [e for _i, e in v.task_events(m, pos) if e[1] == "resume"]
-                if res and res[0][3] == "ok":
-                    bad.append(m)
+                # the member's events from its first step to its first resumption at a gate: a cancellation delivered
+                # earlier on (inside an `__aenter__`/`__aexit__` it awaited, or caught by its own code) counts
+                for _i, e in v.task_events(m, pos):
+                    if _cancel_evidence(e):
+                        break
+                    if e[1] == "resume":
+                        if e[3] == "ok":
+                            bad.append(m)
+                        break
             elif any(e[1] == "start" for _i, e in v.task_events(m, pos)):
                 bad.append(m)
             continue
